@@ -70,12 +70,27 @@ func genTelemetryTruth() {
 	m.strs("platformFlow", plat, "which node getPlatform sees, the assignment of its result, and the ClusterPlatform field of the report")
 
 	ps := cs.fn("", "parseSnippetValueIntoDirectives")
-	var commentBranch, closures []string
+	var commentBranch, closures, bareCases []string
 	nComment := 0
 	walk(ps.Body, func(n ast.Node) bool {
 		switch x := n.(type) {
 		case *ast.CaseClause:
 			for _, e := range x.List {
+				if cs.text(e) == "bare" {
+					for _, st := range x.Body {
+						if sw, ok := st.(*ast.SwitchStmt); ok {
+							for _, c := range sw.Body.List {
+								cc := c.(*ast.CaseClause)
+								if cc.List == nil {
+									bareCases = append(bareCases, "default")
+								}
+								for _, ce := range cc.List {
+									bareCases = append(bareCases, cs.text(ce))
+								}
+							}
+						}
+					}
+				}
 				if cs.text(e) == "comment" {
 					nComment++
 					for _, st := range x.Body {
@@ -96,6 +111,7 @@ func genTelemetryTruth() {
 		fail("TelemetryTruthFacts: expected one `case comment:` in parseSnippetValueIntoDirectives, found %d", nComment)
 	}
 	m.strs("commentBranch", commentBranch, "statements of `case comment:` of the tokenizer loop in parseSnippetValueIntoDirectives")
+	m.strs("bareBranchCases", bareCases, "conditions of the switch in `case bare:` of the tokenizer loop, in order (no case for quotes: a quote inside a bare word is an ordinary character)")
 	m.strs("tokenizerClosures", closures, "names of the closures defined in parseSnippetValueIntoDirectives, in source order")
 
 	// ---- manager.go: wiring of the collector
